@@ -123,12 +123,58 @@ def child(args):
         import sys as _sys
         apicov = set()
         root = os.path.realpath(tree())
+        # option audit: code object -> {parameter name: default} for every function / method defined under ahrs
+        import inspect as _inspect
+        defaults = {}
+        for _mn, _mod in list(_sys.modules.items()):
+            if not _mn.startswith("ahrs") or _mod is None:
+                continue
+            for _o in list(vars(_mod).values()):
+                cands = [_o] if _inspect.isfunction(_o) else ([v for v in vars(_o).values()] if _inspect.isclass(_o) and getattr(_o, "__module__", "").startswith("ahrs") else [])
+                for c in cands:
+                    f_ = getattr(c, "fget", None) or getattr(c, "__func__", None) or c
+                    while hasattr(f_, "__wrapped__"):          # probes wrap the callables they observe
+                        f_ = f_.__wrapped__
+                    if _inspect.isfunction(f_) and f_.__code__ not in defaults:
+                        try:
+                            sig = _inspect.signature(f_)
+                        except (TypeError, ValueError):
+                            continue
+                        defaults[f_.__code__] = {n: p.default for n, p in sig.parameters.items() if p.default is not _inspect.Parameter.empty}
+        optcov = {}
+
+        def _same(a, b):
+            try:
+                if a is b:
+                    return True
+                if isinstance(a, np.ndarray) or isinstance(b, np.ndarray):
+                    return False
+                return bool(a == b) and type(a) is type(b)
+            except Exception:
+                return False
 
         def _prof(frame, event, arg):
             if event == "call":
-                fn = frame.f_code.co_filename
+                code = frame.f_code
+                fn = code.co_filename
                 if fn.startswith(root):
-                    apicov.add("%s:%s:%d" % (os.path.relpath(fn, root), frame.f_code.co_qualname if hasattr(frame.f_code, "co_qualname") else frame.f_code.co_name, frame.f_code.co_firstlineno))
+                    key = "%s:%s" % (os.path.relpath(fn, root), code.co_qualname if hasattr(code, "co_qualname") else code.co_name)
+                    apicov.add("%s:%d" % (key, code.co_firstlineno))
+                    d = defaults.get(code)
+                    if d:
+                        loc = frame.f_locals
+                        rec = optcov.setdefault(key, {})
+                        for n, dv in d.items():
+                            if n in loc and not rec.get(n) and not _same(loc[n], dv):
+                                rec[n] = True
+                            else:
+                                rec.setdefault(n, False)
+                    if "kwargs" in frame.f_locals or "kw" in frame.f_locals:
+                        kws = frame.f_locals.get("kwargs", frame.f_locals.get("kw"))
+                        if isinstance(kws, dict):
+                            rec = optcov.setdefault(key, {})
+                            for n in kws:
+                                rec["**" + n] = True
         _sys.setprofile(_prof)
     os.environ.setdefault("VERIF_DEPTH", str(getattr(mod, "THOROUGH_DEPTH", 1)))
     rng = np.random.Generator(np.random.PCG64(shard_seed(args.seed, args.prop, args.shard)))
@@ -157,6 +203,8 @@ def child(args):
         os.makedirs(os.path.join(core.VERIF, ".work", "apicov"), exist_ok=True)
         with open(os.path.join(core.VERIF, ".work", "apicov", "%s-%d.json" % (args.prop, args.shard)), "w") as f:
             json.dump(sorted(apicov), f)
+        with open(os.path.join(core.VERIF, ".work", "apicov", "opt-%s-%d.json" % (args.prop, args.shard)), "w") as f:
+            json.dump(optcov, f)
     np.save(args.out + ".npy", np.array(stats["digests"], dtype=np.uint64))
     with open(args.out, "w") as f:
         json.dump(core.enc(out), f)
